@@ -80,6 +80,14 @@ def generate(rng, kind, n):
                 if len(pos) > 1:
                     for extra in ("foreign", "src", "nosrc", "noarch"):      # child arch outside its parent's (no name is exempt)
                         opts.append(("variant", pos, "arches+", extra))
+                    if len(pos) > 2:
+                        # an architecture the grandparent has and the direct parent lacks: inclusion is in the PARENT's set
+                        gp = desc[3][pos[0]]
+                        for kk in pos[1:-2]:
+                            gp = gp[3][kk]
+                        par = gp[3][pos[-2]]
+                        for extra in [a for a in gp[0]["arches"] if a not in par[0]["arches"]]:
+                            opts += [("variant", pos, "arches+", extra)] * 6
                 else:
                     opts.append(("variant", pos, "arches", [5]))             # documented: a set of architecture NAMES
                 opts.append(("variant", pos, "paths.os_tree", 5))            # documented: arch -> relative path (str)
@@ -95,8 +103,14 @@ def generate(rng, kind, n):
             comp = OI.valid_compose(rng, R)
             if not comp.get("label"):
                 comp["label"], comp["final"] = "RC-1.0", True
-            content = {"version": None, "compose": comp, "pool": pool,
-                       "ops": [["Server", "x86_64", 0], ["Server", "x86_64", 1], ["Client", "ppc64le", 2]]}
+            ops = [["Server", "x86_64", 0], ["Server", "x86_64", 1], ["Client", "ppc64le", 2]]
+            if rng.random() < 0.4:
+                # two different images in different cells described by one path string (a source ISO mapped twice):
+                # each is an image of its own and is validated on its own
+                pool[2]["path"] = pool[0]["path"]
+            if rng.random() < 0.5:
+                ops = [ops[2], ops[0], ops[1]]
+            content = {"version": None, "compose": comp, "pool": pool, "ops": ops}
             opts = [("image", [i], f, v) for i in range(3) for f, vs in IMAGE.items() for v in vs]
             opts += [("image", [i], "additional_variants!", ["Server"]) for i in range(3)]      # on a non-unified image
             opts += [("compose", [], f, v) for f, vs in COMPOSE.items() for v in vs]
